@@ -169,10 +169,11 @@ func callWrapsError(call *ssa.Call) bool {
 }
 
 func checkC05(c *Ctx, r *Report) {
-	r.Rules = []string{"D1+D5 plan decision table", "D6 Less ordering table", "K2 insert-after-collision-check", "K1 key=destination", "O5 parents-before-entry / sort-before-return", "T2 order-insensitive map iteration (files, glob)", "G-base the base of every relative-path computation is a whole directory", "G-prefix no bare string-prefix containment test on paths", "G-cutset trim cutsets with path characters are single characters", "G-rooted absolute-path normalisers anchor at the root before cleaning", "fixture", "O5-parents-clean ancestors are those of the normalised destination", "D5-glob-source expanded entries come from glob.Glob", "K2b an implied directory (and nothing else) is replaced by a declared one", "K2c an occupant of the other kind always fails; an occupant under the insert's key fails or is replaced", "K5-changelog the generated deb changelog entry joins the contents whenever a changelog is configured"}
+	r.Rules = []string{"D1+D5 plan decision table", "D6 Less ordering table", "K2 insert-after-collision-check", "K1 key=destination", "O5 parents-before-entry / sort-before-return", "T2 order-insensitive map iteration (files, glob)", "G-base the base of every relative-path computation is a whole directory", "G-prefix no bare string-prefix containment test on paths", "G-cutset trim cutsets with path characters are single characters", "G-rooted absolute-path normalisers anchor at the root before cleaning", "fixture", "O5-parents-clean ancestors are those of the normalised destination", "D5-glob-source expanded entries come from glob.Glob", "K2b an implied directory (and nothing else) is replaced by a declared one", "K2c an occupant of the other kind always fails; an occupant under the insert's key fails or is replaced", "K5-changelog the generated deb changelog entry joins the contents whenever a changelog is configured", "K6-sorted-search binary searches run over literal tables in ascending order", "G-into-dir base-name placement is decided by the destination's trailing slash alone", "K7-no-dedup the planner keeps no side table by which later entries are dropped silently"}
 	r.Explanation = "Static decision of the structural necessary conditions of content planning: (D1+D5) files.PrepareForPackager is abstractly evaluated (finite-domain constant propagation over go/ssa, no execution) for every cell packager x entry-packager-tag x entry type, and the set of live plan mechanisms (skip / dir insert / single insert / tree walk / glob / invalid-type error) is compared with the table transcribed from the statement; (D6) Contents.Less is evaluated on all 27 orderings of (destination, type, packager) and must be the lexicographic order; (K2) every insert into the destination map is dominated by a lookup on the same map whose occupied edge can return the collision error; (O5) parents are added before each declared entry and the returned slice is sorted before every success return; (T2) every map range in files/glob is order-insensitive by an enumerated idiom; (G-base) every definition of the base argument of filepath.Rel in files and internal/glob is the entry's configured path or was cut at a separator by filepath.Dir after any string slicing, and (G-prefix) no strings.HasPrefix/TrimPrefix/CutPrefix in those packages takes a computed prefix that does not end in a separator by construction - a common string prefix is not a directory. Not decided: lexical cleaning, which directory is the deepest common one for a given match list, tree walking on disk."
 	r.Explanation += " (G-cutset) constant cutsets of strings.Trim* that contain path characters are single characters. (G-rooted) every return of files.NormalizeAbsolute* is cleaned after being anchored at the root, and a '/' suffix is appended only where the root has been told apart. (O5-parents-clean) the enumeration of an entry's ancestors starts from its normalised destination. (K3) the helper that switches between the two key spellings is given the entry's normalised key."
 	r.Explanation += " (K2c) from the occupied edge of every collision probe all paths end in an error return - or, under the insert's own key, at the insert (whose admissible occupants K2b decides) - never back in the scan or at a success return; inserts of implied parents are exempt under their own key. (K5-changelog) the function that creates the changelog-typed entry, evaluated with a changelog configured, must-reaches the store of the extended contents."
+	r.Explanation += " (K6-sorted-search) every slices.BinarySearch / sort.Search* in the planner's packages runs over a package-level table initialised by one literal of string constants in ascending order. (G-into-dir) the block of glob.Glob that uses filepath.Base is guarded by strings.HasSuffix on the destination parameter itself. (K7-no-dedup) a comma-ok lookup in a non-content map the function itself fills never leads back to the loop without a return or an update of that map."
 	r.Assumptions = []string{
 		"filepath.Clean/Join/Rel, fileglob and WalkDir behave as documented (path normalisation semantics are not analysed)",
 		"a Content entry is touched by the planner's selection logic only through ==/!= comparisons of its Type and Packager fields (any other use makes the evaluator fork both ways)",
@@ -350,6 +351,9 @@ func checkC05(c *Ctx, r *Report) {
 	r.Floor("T2", n, 2)
 	checkGlobBase(c, r)
 	checkChangelogJoinsPlan(c, r)
+	checkSortedSearches(c, r)
+	checkGlobIntoDir(c, r)
+	checkNoSilentDedup(c, r, reach)
 	r.Exhaustive = true
 }
 
@@ -1584,4 +1588,200 @@ func returnsValueFrom(start *ssa.BasicBlock, v ssa.Value) bool {
 		return false
 	}
 	return dfs(start)
+}
+
+// checkSortedSearches (K6-sorted-search): a binary search answers "absent" for
+// elements of a list that is not sorted. Every binary search in the planner's
+// packages therefore runs over a package-level list whose initial value is one
+// literal of constants in ascending order - a list glued together from two
+// sorted lists, or sorted later, cannot be shown sorted.
+func checkSortedSearches(c *Ctx, r *Report) {
+	n := 0
+	for _, fn := range c.ModFuncs {
+		pp := c.funcPkgPath(fn)
+		if pp != filesPath && pp != globPath && pp != modPath {
+			continue
+		}
+		forEachInstr(fn, func(in ssa.Instruction) {
+			call, ok := in.(*ssa.Call)
+			if !ok || len(call.Call.Args) == 0 {
+				return
+			}
+			o := calleeObj(call)
+			if o == nil {
+				return
+			}
+			switch qualifiedName(o) {
+			case "slices.BinarySearch", "slices.BinarySearchFunc", "sort.SearchStrings", "sort.SearchInts":
+			default:
+				return
+			}
+			n++
+			construct := fmt.Sprintf("binary search#%d in %s runs over a sorted list", n, c.funcKey(fn))
+			g := rootGlobal(call.Call.Args[0])
+			if g == nil {
+				r.Fail("K6-sorted-search", construct, c.instrPos(call), "the list searched is not a package-level table: its order cannot be decided")
+				return
+			}
+			why := "the table " + globalName(g) + " is not initialised by one literal of constants"
+			okSorted := false
+			if init := g.Pkg.Func("init"); init != nil {
+				forEachInstr(init, func(i2 ssa.Instruction) {
+					st, ok := i2.(*ssa.Store)
+					if !ok || st.Addr != ssa.Value(g) {
+						return
+					}
+					sl, ok := st.Val.(*ssa.Slice)
+					if !ok {
+						return
+					}
+					elems := variadicOrdered(sl)
+					prev := ""
+					sorted := len(elems) > 0
+					for i, e := range elems {
+						k, isK := e.(*ssa.Const)
+						if !isK || !isConstString(k) {
+							sorted = false
+							why = "the table " + globalName(g) + " holds non-constant elements"
+							break
+						}
+						if i > 0 && constString(k) < prev {
+							sorted = false
+							why = fmt.Sprintf("the table %s is not in ascending order: %q comes after %q", globalName(g), constString(k), prev)
+							break
+						}
+						prev = constString(k)
+					}
+					okSorted = sorted
+				})
+			}
+			r.Check(okSorted, "K6-sorted-search", construct, c.instrPos(call), why+": elements the search misses are treated as absent (a directory owned by the filesystem package would be planned as an explicit directory)")
+		})
+	}
+	r.Count("binary_searches", n)
+}
+
+// checkGlobIntoDir (G-into-dir): "a destination ending in '/' places each match
+// in that directory under its base name". In the glob expansion the branch
+// that places a match under filepath.Base of itself is taken on exactly one
+// condition, evaluated for every match: strings.HasSuffix(<dst parameter>, "/")
+// - not a flag computed beforehand that other facts (the source being a
+// directory) can switch off.
+func checkGlobIntoDir(c *Ctx, r *Report) {
+	g := c.Func("internal/glob", "Glob")
+	if g == nil {
+		r.Unresolved("glob.Glob", "function not found")
+		return
+	}
+	n := 0
+	forEachInstr(g, func(in ssa.Instruction) {
+		call, ok := in.(*ssa.Call)
+		if !ok || !calleeIs(call, "path/filepath", "", "Base") {
+			return
+		}
+		// the test that guards the block using the base name
+		b := call.Block()
+		var cond ssa.Value
+		for d := b; d != nil && cond == nil; d = d.Idom() {
+			for _, p := range d.Preds {
+				if ifi, isIf := p.Instrs[len(p.Instrs)-1].(*ssa.If); isIf && p.Succs[0] == d && len(d.Preds) == 1 {
+					cond = ifi.Cond
+				}
+			}
+			if d == b.Parent().Blocks[0] {
+				break
+			}
+		}
+		n++
+		ok2 := false
+		why := "the placement under the base name is not guarded by a test at all"
+		if cond != nil {
+			why = "the guard is " + shorten(valueExpr(c, cond, 0), 80)
+			if hs, isCall := cond.(*ssa.Call); isCall && calleeIs(hs, "strings", "", "HasSuffix") && len(hs.Call.Args) == 2 && constOrEmpty(hs.Call.Args[1]) == "/" {
+				if prm, isPrm := hs.Call.Args[0].(*ssa.Parameter); isPrm && prm.Parent() == g {
+					ok2 = true
+				}
+			}
+		}
+		r.Check(ok2, "G-into-dir", fmt.Sprintf("glob.Glob: base-name placement#%d is decided by the destination's trailing slash alone", n), c.instrPos(call),
+			"expected the guard strings.HasSuffix(dst, \"/\") on the destination parameter; "+why+": for some sources a destination ending in '/' would not place the match directly in that directory")
+	})
+	r.Floor("G-into-dir", n, 1)
+}
+
+// checkNoSilentDedup (K7-no-dedup): every entry of the contents is decided on
+// its own - selected for the packager or not, placed, checked against the
+// plan. The planner keeps no side table of entries it has "seen" by which a
+// later entry is dropped without a word: two entries that agree in type,
+// source and destination may still differ in what the table's key leaves out
+// (the packager tag), and the one dropped may be the only one addressed to
+// the format being planned.
+func checkNoSilentDedup(c *Ctx, r *Report, reach map[*ssa.Function]bool) {
+	n := 0
+	for _, fn := range sortedFuncs(c, reach) {
+		pp := c.funcPkgPath(fn)
+		if pp != filesPath && pp != globPath {
+			continue
+		}
+		written := map[string]bool{}
+		forEachInstr(fn, func(in ssa.Instruction) {
+			if mu, ok := in.(*ssa.MapUpdate); ok && !isContentMap(mu.Map.Type()) {
+				if k := exprKey(mu.Map); k != "" {
+					written[k] = true
+				}
+			}
+		})
+		if len(written) == 0 {
+			continue
+		}
+		forEachInstr(fn, func(in ssa.Instruction) {
+			lk, ok := in.(*ssa.Lookup)
+			if !ok || !lk.CommaOk || !written[exprKey(lk.X)] || lk.Referrers() == nil {
+				return
+			}
+			for _, ref := range *lk.Referrers() {
+				ex, ok := ref.(*ssa.Extract)
+				if !ok || ex.Index != 1 || ex.Referrers() == nil {
+					continue
+				}
+				for _, r2 := range *ex.Referrers() {
+					ifi, ok := r2.(*ssa.If)
+					if !ok {
+						continue
+					}
+					n++
+					found := ifi.Block().Succs[0]
+					home := lk.Block()
+					silent := false
+					seen := map[*ssa.BasicBlock]bool{}
+					var dfs func(b *ssa.BasicBlock)
+					dfs = func(b *ssa.BasicBlock) {
+						if seen[b] || silent {
+							return
+						}
+						seen[b] = true
+						if b != found && (b == home || b.Dominates(home)) {
+							silent = true
+							return
+						}
+						if _, isRet := b.Instrs[len(b.Instrs)-1].(*ssa.Return); isRet {
+							return
+						}
+						for _, i2 := range b.Instrs {
+							if mu, ok := i2.(*ssa.MapUpdate); ok && exprKey(mu.Map) == exprKey(lk.X) {
+								return // the entry found is replaced, not the new one dropped
+							}
+						}
+						for _, s := range b.Succs {
+							dfs(s)
+						}
+					}
+					dfs(found)
+					r.Check(!silent, "K7-no-dedup", fmt.Sprintf("side table %s in %s does not drop entries silently", shorten(valueExpr(c, lk.X, 0), 30), c.funcKey(fn)), c.instrPos(lk),
+						"an element found in a table the loop itself fills is skipped and the loop goes on: the later of two entries that agree in the table's key is dropped without an error, whatever else distinguishes them (their packager tags)")
+				}
+			}
+		})
+	}
+	r.Count("side_table_lookups_in_planner", n)
 }
